@@ -164,3 +164,7 @@ def replay(case):
     gd = {"nodes": gd["nodes"], "di": gd["di"], "bi": gd["bi"]}
     doms = {p: (list(zw[0]), list(zw[1])) for p, zw in (case.get("domains") or {}).items()}
     run_case(_C(), gd, {"X": case["X"], "Y": case["Y"]}, doms)
+
+
+def install_for_suite():
+    mon_trso.install(semantic=True, K=2)
